@@ -20,7 +20,7 @@ SPEC = {
              'from inside availability callbacks (also with the dictionary object the manager offers, after another '
              'pool operation), judged for usage == outstanding reservations and success == fits; a case is one sequence; non-trivial = it contains a '
              'multi-entry request that must fail, or an operation that raised while a reservation was '
-             'outstanding; distinct = by hash of the op list'),
+             'outstanding; distinct = by hash of the op list; also: release({}) and amounts of very different magnitude (2**34 next to 8)'),
     'floors': {'quick': {'state_comparisons': 50000, 'raised_ops_checked': 1000, 'reservations_judged': 3000, 'pool_checks': 20000},
                'thorough': {'state_comparisons': 1000000, 'raised_ops_checked': 10000}},
     'exhaustive_key': 'exhaustive_sequences',
